@@ -51,3 +51,28 @@ Section Vt.
   (* what a blank screen shows after printing s from the anchor *)
   Definition shown (s : list N) : nat -> nat -> option N := v_cells (print s vt0).
 End Vt.
+
+(* ---------- terminal operations and their standard byte encoding ---------- *)
+
+Inductive op :=
+| OPrint (s : list N)          (* characters of width 1 *)
+| OCr | OLf                    (* LF: what the terminal receives for a written line feed is CR LF (ONLCR) *)
+| OUp1                         (* ESC [ A *)
+| OUp (n : nat) | ODown (n : nat) | ORight (n : nat)   (* ESC [ n A / B / C *)
+| OEraseEol.                   (* ESC [ K *)
+
+Section VtOps.
+  Variable W : nat.
+  Definition run1 (v : vt) (o : op) : vt :=
+    match o with
+    | OPrint s => print W s v
+    | OCr => cr v
+    | OLf => lf (cr v)
+    | OUp1 => up 1 v
+    | OUp n => up n v
+    | ODown n => down n v
+    | ORight n => right W n v
+    | OEraseEol => erase_eol v
+    end.
+  Definition run (ops : list op) (v : vt) : vt := fold_left run1 ops v.
+End VtOps.
